@@ -285,7 +285,7 @@ func RunOpts(srcDir, dstDir string, rewrite bool) (*Descriptor, error) {
 		importsSync := false
 		timeName, timeRewrites := "", 0
 		for _, imp := range f.Imports {
-			p := strings.Trim(imp.Path.Value, `"`)
+			p := strings.Trim(imp.Path.Value, "`\"")
 			if p == "time" {
 				timeName = "time"
 				if imp.Name != nil {
@@ -545,8 +545,8 @@ func RunOpts(srcDir, dstDir string, rewrite bool) (*Descriptor, error) {
 	hb.WriteString("func Waiting() {\n\tif Hook != nil {\n\t\tHook(-3)\n\t}\n}\n\n")
 	hb.WriteString("// gates serialise the x.Do(f) statements of the instrumented module cooperatively (see Enter).\nvar gates [64]struct {\n\tid    int\n\towner int\n\tdepth int\n}\n\n")
 	hb.WriteString("// CurTask is the simulated task that holds the token (maintained by the harness).\nvar CurTask int\n\n")
-	hb.WriteString("// Enter tries to pass the gate of a wrapped x.Do(f) statement.  Exactly one simulated task runs at a time,\n// so plain variables are enough; outside a simulation the gate is always open.  The gate is re-entrant for\n// the task that holds it (f may reach the same statement again: recursion, or a method that is merely called Do).\n//\n//go:norace\nfunc Enter(id int) bool {\n\tif Hook == nil || !Active {\n\t\treturn true\n\t}\n\tfree := -1\n\tfor i := range gates {\n\t\tif gates[i].depth > 0 && gates[i].id == id {\n\t\t\tif gates[i].owner == CurTask {\n\t\t\t\tgates[i].depth++\n\t\t\t\treturn true\n\t\t\t}\n\t\t\treturn false\n\t\t}\n\t\tif gates[i].depth == 0 && free < 0 {\n\t\t\tfree = i\n\t\t}\n\t}\n\tif free >= 0 {\n\t\tgates[free].id, gates[free].owner, gates[free].depth = id, CurTask, 1\n\t}\n\treturn true\n}\n\n")
-	hb.WriteString("// Leave undoes one Enter.\n//\n//go:norace\nfunc Leave(id int) {\n\tif Hook == nil || !Active {\n\t\treturn\n\t}\n\tfor i := range gates {\n\t\tif gates[i].depth > 0 && gates[i].id == id && gates[i].owner == CurTask {\n\t\t\tgates[i].depth--\n\t\t\treturn\n\t\t}\n\t}\n}\n\n")
+	hb.WriteString("// Enter tries to pass the gate of a wrapped x.Do(f) statement.  Exactly one simulated task runs at a time,\n// so plain variables are enough; outside a simulation the gate is always open.  The gate is re-entrant for\n// the task that holds it (f may reach the same statement again: recursion, or a method that is merely called Do).\n//\n//go:norace\nfunc Enter(id int) bool {\n\tif Hook == nil || !Active || (IsTask != nil && !IsTask()) {\n\t\treturn true\n\t}\n\tfree := -1\n\tfor i := range gates {\n\t\tif gates[i].depth > 0 && gates[i].id == id {\n\t\t\tif gates[i].owner == CurTask {\n\t\t\t\tgates[i].depth++\n\t\t\t\treturn true\n\t\t\t}\n\t\t\treturn false\n\t\t}\n\t\tif gates[i].depth == 0 && free < 0 {\n\t\t\tfree = i\n\t\t}\n\t}\n\tif free >= 0 {\n\t\tgates[free].id, gates[free].owner, gates[free].depth = id, CurTask, 1\n\t}\n\treturn true\n}\n\n")
+	hb.WriteString("// Leave undoes one Enter.\n//\n//go:norace\nfunc Leave(id int) {\n\tif Hook == nil || !Active || (IsTask != nil && !IsTask()) {\n\t\treturn\n\t}\n\tfor i := range gates {\n\t\tif gates[i].depth > 0 && gates[i].id == id && gates[i].owner == CurTask {\n\t\t\tgates[i].depth--\n\t\t\treturn\n\t\t}\n\t}\n}\n\n")
 	hb.WriteString("// ResetGates opens every gate (called by the harness between runs).\n//\n//go:norace\nfunc ResetGates() {\n\tfor i := range gates {\n\t\tgates[i].depth = 0\n\t}\n}\n\n")
 	hb.WriteString("// Active is set by the harness around the concurrent phase of a run.\nvar Active bool\n\n// NoPreempt is kept for compatibility (always 0).\nvar NoPreempt int\n\n")
 	hb.WriteString("// SiteInfo describes one yield site.\ntype SiteInfo struct {\n\tFile string\n\tLine int\n\tFunc string\n\tFuncFirst bool\n\tGlobal bool\n\tHot bool\n}\n\n")
@@ -656,19 +656,45 @@ func tryFunc(p interface{}, read bool) func() bool {
 			return nil
 		}
 	}
-	embeds := false
-	for i := 0; i < t.NumField(); i++ {
-		if f := t.Field(i); f.Anonymous {
-			switch f.Type {
-			case mutexType, rwMutexType, reflect.PtrTo(mutexType), reflect.PtrTo(rwMutexType):
-				embeds = true
-			}
-		}
-	}
-	if !embeds {
+	if !embedsMutex(t, 0) {
 		return nil
 	}
 	return tryFuncOf(v.Interface(), read)
+}
+
+// embedsMutex: the struct type embeds a sync mutex, directly or through embedded structs none of which has a Lock
+// method of the module's own making.
+func embedsMutex(t reflect.Type, depth int) bool {
+	if depth > 3 || t.Kind() != reflect.Struct {
+		return false
+	}
+	base := t.Name()
+	if i := indexByte(base, '['); i >= 0 {
+		base = base[:i]
+	}
+	for _, n := range OwnLockTypes {
+		if n == base && base != "" {
+			return false
+		}
+	}
+	for i := 0; i < t.NumField(); i++ {
+		f := t.Field(i)
+		if !f.Anonymous {
+			continue
+		}
+		switch f.Type {
+		case mutexType, rwMutexType, reflect.PtrTo(mutexType), reflect.PtrTo(rwMutexType):
+			return true
+		}
+		ft := f.Type
+		if ft.Kind() == reflect.Ptr {
+			ft = ft.Elem()
+		}
+		if embedsMutex(ft, depth+1) {
+			return true
+		}
+	}
+	return false
 }
 
 var (
@@ -748,6 +774,10 @@ func Sleep(d time.Duration) {
 		time.Sleep(d)
 	}
 }
+
+// IsTask is installed by the harness: it reports whether the calling goroutine is the simulated task that holds
+// the token (gates are for tasks only; any other goroutine passes them as in production).
+var IsTask func() bool
 
 // SleepFunc is installed by the harness: it lets simulated time pass for the simulated task that calls it and
 // reports false for any other goroutine.
@@ -829,7 +859,30 @@ func simpleRecv(e ast.Expr) bool {
 	case *ast.ParenExpr:
 		return simpleRecv(x.X)
 	case *ast.IndexExpr:
-		return simpleRecv(x.X) && simpleRecv(x.Index)
+		return simpleRecv(x.X) && pureExpr(x.Index)
+	}
+	return false
+}
+
+// pureExpr reports whether e is free of calls, receives and other side effects (an index expression like h%n).
+func pureExpr(e ast.Expr) bool {
+	switch x := e.(type) {
+	case *ast.Ident:
+		return true
+	case *ast.BasicLit:
+		return true
+	case *ast.ParenExpr:
+		return pureExpr(x.X)
+	case *ast.BinaryExpr:
+		return pureExpr(x.X) && pureExpr(x.Y)
+	case *ast.UnaryExpr:
+		return x.Op != token.ARROW && x.Op != token.AND && pureExpr(x.X)
+	case *ast.SelectorExpr:
+		return pureExpr(x.X)
+	case *ast.IndexExpr:
+		return pureExpr(x.X) && pureExpr(x.Index)
+	case *ast.StarExpr:
+		return pureExpr(x.X)
 	}
 	return false
 }
